@@ -112,6 +112,10 @@ def c03(res: CheckResult) -> None:
     call_unit(res, "async and sync public methods mixed; operation sequences", list(F.fam_inv_async(res.tier, rng)), ic)
     call_unit(res, "subclass constructors calling the base constructor; members added by the subclass",
               list(F.fam_inv_sub(res.tier, rng)), ic, require_outcomes=["ret", "Violation"])
+    def_unit(res, "member selection: which members of a class / subclass carry invariant checks, per check_on combination",
+             list(DF.fam_wraptable(res.tier, rng)), ic, rng=rng)
+    def_unit(res, "member kinds (method, property, static, class method) inherited / overridden under invariants",
+             list(DF.fam_kinds(res.tier, rng)), ic, rng=rng)
 
 
 @check("C11")
